@@ -15,13 +15,23 @@ P_OLD = "//@ sourceMappingURL="
 def comment_scan(ctx, rule):
     b = ctx.body(LOCATE)
     fn = b.path
-    line = [l for l in sorted(b.var_names) if b.var_names[l] == "line" and b.local_ty(l).endswith("String")]
+    line = sorted(set(q.root_local(q.arg_expr(b, t, 0)) for bi, t in q.calls_to(b, "str::starts_with")) - {None})
+    line = [l for l in line if b.local_ty(l).endswith("String")]
     if not ctx.check(len(line) == 1, rule, fn, "line", "each line of the input is examined"):
         return
     roles = {line[0]: "line"}
     sw = [q.shape(b.expr_of_call(t), roles) for bi, t in q.calls_to(b, "str::starts_with")]
-    want = ["str::starts_with(line,%r)" % P_NEW, "str::starts_with(line,%r)" % P_OLD, "str::starts_with(line,'//@')"]
-    ctx.check(sorted(sw) == sorted(want), rule, fn, "prefixes", "the scan recognises exactly '//# sourceMappingURL=' and '//@ sourceMappingURL=' (and '//@' for the legacy flag)", detail=str(sw))
+    main = [x for x in sw if x in ("str::starts_with(line,%r)" % P_NEW, "str::starts_with(line,%r)" % P_OLD)]
+    rest = [x for x in sw if x not in main]
+    legacy_consts = []
+    for x in rest:
+        m = __import__("re").match(r"^str::starts_with\(line,'(.*)'\)$", x)
+        legacy_consts.append(m.group(1) if m else None)
+    # the legacy test may use any constant that distinguishes the two prefixes
+    leg_ok = len(legacy_consts) == 1 and legacy_consts[0] is not None and P_OLD.startswith(legacy_consts[0]) and not P_NEW.startswith(legacy_consts[0])
+    ctx.check(sorted(main) == sorted(["str::starts_with(line,%r)" % P_NEW, "str::starts_with(line,%r)" % P_OLD]) and leg_ok, rule, fn, "prefixes",
+              "the scan recognises exactly '//# sourceMappingURL=' and '//@ sourceMappingURL=' (plus one test that tells the legacy form apart)", detail=str(sw))
+    LEG = rest[0] if rest else "?"
     ctx.check(len(P_NEW) == 21 and len(P_OLD) == 21, rule, fn, "prefix-len", "both prefixes are 21 bytes long")
     sl = [(bi, q.shape(b.expr_of_call(t), roles)) for bi, t in q.calls_to(b, "Index::index")]
     ctx.check([s for _, s in sl] == ["String::as_bytes(line)[RangeFrom{start:21}]"], rule, fn, "slice:21", "the URL is what follows the 21 prefix bytes of that same line", detail=str(sl))
@@ -32,13 +42,13 @@ def comment_scan(ctx, rule):
             r = absint.reach(b, start, {A: a, B: o}, roles)
             hit = bool(sl) and sl[0][0] in r
             ctx.check(hit == bool(a or o), rule, fn, "dominance:new=%d,old=%d" % (a, o), "the slice is reached exactly when the line starts with one of the two prefixes")
-    urls = [sh for l in sorted(b.var_names) for sh, _, _ in q.def_shapes(b, l, roles) if b.var_names[l] == "url"]
+    urls = [sh for l in sorted(b.var_names) for sh, _, _ in q.def_shapes(b, l, roles) if sh.startswith("ToOwned::to_owned(") or sh.startswith("str::trim(")]
     ctx.check(len(urls) == 1 and q.wild("ToOwned::to_owned(str::trim(try(converts::from_utf8(String::as_bytes(*)[RangeFrom{start:21}]))))", urls[0]), rule, fn, "trim", "the URL is trimmed", detail=str(urls))
     lits = [(bi, s["rv"]["variant"]) for bi, si, s, it in b.locations() if not it and s["k"] == "assign" and s["rv"]["k"] == "agg" and s["rv"].get("adt") == "detector::SourceMapRef"]
     ok = sorted(v for _, v in lits) == ["LegacyRef", "Ref"]
     ctx.check(ok, rule, fn, "variants", "a reference is reported as Ref or LegacyRef")
     for bi, v in lits:
-        f = ("true" if v == "LegacyRef" else "false", "str::starts_with(line,'//@')", None)
+        f = ("true" if v == "LegacyRef" else "false", LEG, None)
         ctx.check(has_fact(b, bi, roles, f), rule, fn, "legacy:%s" % v, "the '@' form and only it is flagged as legacy", ctx.site(b, bi))
         # first match returns: from the literal the loop head is not reachable
         head = [hb for hb, t in q.calls_to(b, "Iterator::next")]
@@ -214,17 +224,17 @@ def hermes_state(ctx, rule):
         for site in found.get("acc", []):
             order.append((len(b.dominators_of(site[0])), lab))
     ctx.check([l for _, l in sorted(order)] == ["column", "name", "line"], rule, fn, "order", "the segment's values are consumed in the order column, name index, line (Metro's format)", detail=str(sorted(order)))
-    its = [sh for l in sorted(b.var_names) for sh, _, _ in q.def_shapes(b, l, roles) if sh == "Iterator::copied(slice::iter(upvar:nums))"]
+    its = [sh for l in sorted(b.var_names) for sh, _, _ in q.def_shapes(b, l, roles) if sh == "Iterator::copied(slice::iter(^var:Vec<i64>))"]
     ctx.check(len(its) == 1, rule, fn, "nums-iter", "the values are read in order from the parsed segment")
     parse = [q.shape(b.expr_of_call(t)) for bi, t in b.calls() if q.nice(t.get("callee")) == "Result::ok"]
-    ctx.check(parse == ["Result::ok(vlq::parse_vlq_segment_into(some(Iterator::next(var:Split<char>)),upvar:nums))"], rule, fn, "parse-error->None",
+    ctx.check(parse == ["Result::ok(vlq::parse_vlq_segment_into(some(Iterator::next(var:Split<char>)),^var:Vec<i64>))"], rule, fn, "parse-error->None",
               "a segment that fails to parse disables scope lookup for this source only (.ok()? inside the per-source closure)", detail=str(parse))
     lit = [q.shape(b.expr_of_rvalue(s["rv"]), roles) for bi, si, s, it in b.locations() if not it and s["k"] == "assign" and s["rv"]["k"] == "agg" and s["rv"].get("adt") == "hermes::HermesFunctionMap"]
     ctx.check(len(lit) == 1 and lit[0].startswith("HermesFunctionMap{names:Clone::clone(") or (len(lit) == 1 and ".names" in lit[0]), rule, fn, "function-map", "names and the decoded offsets form the function map", detail=str(lit)[:200])
     h = ctx.body("hermes::decode_hermes")
     qs = [bi for bi, t in h.calls() if q.nice(t.get("callee")) == "Try::branch"]
     ctx.check(len(qs) == 2, rule, h.path, "two-?", "decode_hermes itself fails only for a missing payload or a failing regular decode", detail=str(len(qs)))
-    fm = [sh for l in sorted(h.var_names) for sh, _, _ in q.def_shapes(h, l, {}) if h.var_names[l] == "function_maps"]
+    fm = [sh for l in sorted(h.var_names) for sh, _, _ in q.def_shapes(h, l, {}) if "closure:decode_hermes::{closure#0}" in sh and sh.startswith("Iterator::collect(")]
     ctx.check(len(fm) == 1 and q.wild("Iterator::collect(Iterator::map(slice::iter(*x_facebook_sources*),closure:decode_hermes::{closure#0}))", fm[0]), rule, h.path, "one-per-source",
               "one function map (or None) per x_facebook_sources entry, in order", detail=str(fm)[:200])
 
@@ -232,7 +242,7 @@ def hermes_state(ctx, rule):
 def hermes_lookup(ctx, rule):
     b = ctx.body(SCOPE)
     fn = b.path
-    fmv = [l for l in sorted(b.var_names) if b.var_names[l] == "function_map"]
+    fmv = [l for l in sorted(b.var_names) if b.var_names[l] not in ("val", "residual") and any(sh.startswith("try(Option::as_ref(try(slice::get(arg1.function_maps,") for sh, _, _ in q.def_shapes(b, l, {}))]
     if not ctx.check(len(fmv) == 1, rule, fn, "function_map", "the token's function map is looked up"):
         return
     roles = {fmv[0]: "fm"}
